@@ -277,7 +277,7 @@ def _load():
                      "distinct history digest; non-trivial = >=1 discipline decision among >=2 waiting customers of >=2 classes",
                      B(40000, 400000)))
     rout = profile(n=[2, 2, 3, 4], route_kinds={"matrix": 0.25, "net": 0.45, "pb": 0.15, "fpb": 0.15}, ccm=0.4, cct=0.1, qcap=0.3,
-                   jockey=0.0, ps=0.05, slot=0.05, **NOREROUTE)
+                   jockey=0.0, ps=0.05, slot=0.05)      # pre-emptive reroutes are transitions too (checked like any other)
     rout_b = dict(rout, f_boundary=0.05)
     register(Profile("C09", [C09, Ref], [(1, core), (2, rout), (1, rout_b)],
                      "distinct history digest; non-trivial = >=1 routing decision checked (per-router-kind and unequal-queue JSQ/LB decision counters reported)",
